@@ -17,6 +17,7 @@ Mathematical Background:
 
 from __future__ import annotations
 
+import copy
 from dataclasses import dataclass
 from functools import partial
 from typing import TYPE_CHECKING
@@ -76,6 +77,9 @@ def _response_coefficient_worker(
             - Series of flux response coefficients
 
     """
+    # Work on a copy: the supplied initial values (and the perturbed parameter values,
+    # should a steady-state search raise) must not end up in the caller's model
+    model = copy.deepcopy(model)
     old = model.get_parameter_values()[parameter]
     if y0 is not None:
         model.update_variables(y0)
